@@ -802,7 +802,9 @@ func (c *compiler) compile(tok *token) []instruction {
 		r := c.Locals.Index(tok.Pos.String())
 		k := c.Shadow(tok.Tokens[rangeKey].Text) // the range clause declares new variables
 		v := c.Shadow(tok.Tokens[rangeValue].Text)
+		c.Begin() // the body is a block of its own: a variable it declares does not replace the range variable
 		block := c.optimize(c.compile(tok.Tokens[rangeBlock]))
+		c.End()
 		for n, ins := range block {
 			switch ins.Code {
 			case codeBreak:
